@@ -86,6 +86,8 @@ class Program:
             if k.excl is not None:
                 if k.excl[0] == 'EMBED_UNEXPORTED':
                     return '\t%s' % k.name  # embedded struct whose type name is unexported
+                if k.excl[0] == 'EMBED_NOCOLS':
+                    return '\t%s' % k.name  # embedded exported struct all of whose members are excluded: no columns at all
                 if k.excl[0] == 'EMBED_EXPORTED':
                     # embedded struct of an exported type, excluded by its tag
                     return '\t%s %s' % (k.name, '`json:"audit,omitempty" parquet:"-"`' if k.excl[1] == 'JSONDASH' else '`parquet:"-"`')
@@ -111,6 +113,8 @@ class Program:
                     walk(k.gotype, k.kids)
         walk(self.root, self.kids)
         for k in self.all_members():
+            if k.excl and k.excl[0] == 'EMBED_NOCOLS':
+                types.append('type %s struct {\n\trev int32\n\tWho string `parquet:"-"`\n}\n' % k.name)
             if k.excl and k.excl[0] in ('EMBED_UNEXPORTED', 'EMBED_EXPORTED'):
                 types.append('type %s struct {\n\tRev int32\n\tWho string\n}\n' % k.name)
         if any(k.excl and 'Unsupported' in k.excl[0] for k in self.all_members()):
@@ -287,6 +291,8 @@ class Program:
                         L.append('\tok = vAnd(ok, a.%s.Q == 0)' % n)
                     elif t in ('EMBED_UNEXPORTED', 'EMBED_EXPORTED'):
                         L.append('\tok = vAnd(ok, vAnd(a.%s.Rev == 0, a.%s.Who == ""))' % (n, n))
+                    elif t == 'EMBED_NOCOLS':
+                        L.append('\tok = vAnd(ok, vAnd(a.%s.rev == 0, a.%s.Who == ""))' % (n, n))
                     continue
                 if k.kids is None:
                     continue
@@ -324,6 +330,8 @@ class Program:
                         L.append('\ta.%s.Q = i32()' % n)
                     elif t in ('EMBED_UNEXPORTED', 'EMBED_EXPORTED'):
                         L.append('\ta.%s.Rev = i32(); a.%s.Who = string([]byte{u8()})' % (n, n))
+                    elif t == 'EMBED_NOCOLS':
+                        L.append('\ta.%s.rev = i32(); a.%s.Who = string([]byte{u8()})' % (n, n))
                     elif t == 'interface{}':
                         L.append('\ta.%s = 7' % n)
                     elif t == '*Unsupported':
@@ -663,6 +671,8 @@ def decorate_excluded(base, name, where, idx, mode, gotype):
         tgt = [k for k in tgt if k.name == n][0].kids
     if gotype == 'EMBED_UNEXPORTED':
         ex = F('audit%d%s' % (idx, ''.join(where).lower()), excl=(gotype, None))
+    elif gotype == 'EMBED_NOCOLS':
+        ex = F('Marker%d%s' % (idx, ''.join(where).lower()), excl=(gotype, None))
     elif gotype == 'EMBED_EXPORTED':
         ex = F('Audit%d%s' % (idx, ''.join(where).lower()), excl=(gotype, 'JSONDASH' if mode == 'jsondash' else '-'))
     elif mode == 'unexported':
